@@ -2,7 +2,7 @@ package fpgo
 
 // HandlerDef Handler inspired by Android/WebWorker
 type HandlerDef struct {
-	isClosed bool
+	isClosed AtomBool
 
 	ch chan func()
 }
@@ -29,16 +29,20 @@ func (handlerSelf *HandlerDef) NewByCh(ioCh chan func()) *HandlerDef {
 
 // Post Post a function to execute on the Handler
 func (handlerSelf *HandlerDef) Post(fn func()) {
-	if handlerSelf.isClosed {
+	if handlerSelf.isClosed.Get() {
 		return
 	}
+	// Close() might happen between the check above and the send: drop fn then
+	defer func() {
+		recover()
+	}()
 
 	handlerSelf.ch <- fn
 }
 
 // Close Close the Handler
 func (handlerSelf *HandlerDef) Close() {
-	handlerSelf.isClosed = true
+	handlerSelf.isClosed.Set(true)
 
 	close(handlerSelf.ch)
 }
